@@ -6,9 +6,19 @@ import os, subprocess, sys, concurrent.futures as cf
 V = os.path.dirname(os.path.dirname(os.path.abspath(__file__)))
 exe = os.path.join(V, "bin/ctylint")
 dirs = sys.argv[1:] or sorted(os.path.join(V, "benign", d) for d in os.listdir(os.path.join(V, "benign")) if os.path.isdir(os.path.join(V, "benign", d)))
+import json
+known_open = set()
+try:
+    for f in json.load(open(os.path.join(V, "known_findings.json")))["findings"]:
+        if f.get("status") == "open":
+            known_open.add((f["rule"], f["construct"]))
+except Exception:
+    pass
+def is_known(l):
+    return any(("rule=" + r + " construct=" + c + " at ") in l for r, c in known_open)
 def cell(d):
     p = subprocess.run([exe, "-prop", "all", "-overlaypatch", os.path.join(d, "patch.diff"), "-nocontrols", "-verif", V], capture_output=True, text=True)
-    return d, [l for l in (p.stdout + p.stderr).splitlines() if l.startswith(("VIOLATION", "BROKEN")) or "stale" in l]
+    return d, [l for l in (p.stdout + p.stderr).splitlines() if (l.startswith(("VIOLATION", "BROKEN")) or "stale" in l) and not is_known(l)]
 bad = 0
 with cf.ThreadPoolExecutor(max_workers=8) as ex:
     for d, lines in ex.map(cell, dirs):
